@@ -31,7 +31,7 @@ REPORT = [['-L'], ['-l'], ['-OLIST', 'out.lst'], ['-u', '-L'], ['-C', '-L'], ['-
           ['-x'], ['-x', '-x'], ['-n'], ['-A'], ['-r'], ['-E', 'err.log'], ['-gnuerrors'],
           ['-LISTRADIX', '2', '-L'], ['-LISTRADIX', '8', '-L'], ['-LISTRADIX', '10', '-L'], ['-LISTRADIX', '36', '-L'], ['-P'], ['-M'], ['-h', '-L'], ['-SPLITBYTE', '.', '-L'],
           ['-u'], ['-C'], ['-s'], ['-I'], ['-t', '255']]
-ENVDEV = ['carrier:ASCMD', 'carrier:keyfile', 'carrier:keyfile-nonl', 'carrier:keyfile-oneline', 'cwd:other', 'opath', 'lang:de_DE', 'lang:en_US', 'LANG:de_DE.UTF-8', 'noq',
+ENVDEV = ['carrier:ASCMD', 'carrier:keyfile', 'carrier:keyfile-nonl', 'carrier:keyfile-oneline', 'carrier:keyfile-longline', 'cwd:other', 'opath', 'lang:de_DE', 'lang:en_US', 'LANG:de_DE.UTF-8', 'noq',
           'ipath:add-remove', 'ipath:list-form']    # an include directory added and taken away again; the directories given as one list
 NO_Q_OK = True
 
@@ -170,6 +170,9 @@ def runcfg(t, devl):
                 i += 1
         if carrier == 'keyfile-oneline':
             text = ' '.join(lines) + '\n'
+        elif carrier == 'keyfile-longline':
+            # the options behind 300 characters of harmless definitions on the same line
+            text = '-D ' + ','.join('VERIFJUNK%d=1' % i for i in range(24)) + ' ' + ' '.join(lines) + '\n'
         elif carrier == 'keyfile-nonl':
             text = '\n'.join(lines)
         else:
